@@ -27,11 +27,11 @@ var propInfo = map[string]PropInfo{
 		NotDecided: "the allocation attached to the stored pin (C03), histories of calls, what consensus does with the logged pin.",
 	},
 	"C05": {
-		Decides:    "Decides: every re-issued pin operation carries the pin object received from Track or read from the shared state (never a default pin built from the bare CID); a full queue sets the error, cancels and returns an error; the worker sets in-progress before the IPFS call, error+cancel on failure, done+cancel+clean on success; Track ignores meta pins, unpins remote pins, enqueues the given pin otherwise; TrackNewOperation dedupes only same-type unfinished operations and cancels the one it replaces, under the tracker lock. Also: no exit of enqueue precedes the recording of the request in the operation tracker; each queue channel reaches the send only on paths where the operation type is the matching one. Also: the connector's pin/unpin requests run under a context derived from the caller's (the operation's) context (R16.6).",
+		Decides:    "Decides: every re-issued pin operation carries the pin object received from Track or read from the shared state (never a default pin built from the bare CID); a full queue sets the error, cancels and returns an error; the worker sets in-progress before the IPFS call, error+cancel on failure, done+cancel+clean on success; Track ignores meta pins, unpins remote pins, enqueues the given pin otherwise; TrackNewOperation dedupes only same-type unfinished operations and cancels the one it replaces, under the tracker lock. Also: no exit of enqueue precedes the recording of the request in the operation tracker; each queue channel reaches the send only on paths where the operation type is the matching one. Also: the connector's pin/unpin requests run under a context derived from the caller's (the operation's) context (R16.6). Also (R05.7, R05.3, R05.5): the listing the recover round works from is either recursive-only or compared with each pin's mode; the only ways around SetError are a successful call and a cancelled operation; the ongoing operation that is kept is not cancelled.",
 		NotDecided: "quiescence, interleavings of completions, the daemon's actual state.",
 	},
 	"C06": {
-		Decides:    "Decides: every entry returned by StatusAll passed Match(filter); the filter shortcut masks in localStatus cover every status the guarded regions can produce; Operation.ToTrackerStatus is total over (type, phase) with each pair mapped to the status class the property names; Status and StatusAll put the unexpectedly-unpinned case in the same class and decide meta before remote before IPFS; tracker-status string table covers every constant and the composite filters equal the OR of their members; GlobalPinInfo is keyed by peer. Also: StatusAll overlays the complete list of tracked operations onto the local listing unconditionally (as Status does per CID); a full queue leaves an error entry, never a stale queued one (R05.2). Also: Status decides meta before remote as the listing does; the per-CID IPFS query depends on the recorded pin's mode (R06.9).",
+		Decides:    "Decides: every entry returned by StatusAll passed Match(filter); the filter shortcut masks in localStatus cover every status the guarded regions can produce; Operation.ToTrackerStatus is total over (type, phase) with each pair mapped to the status class the property names; Status and StatusAll put the unexpectedly-unpinned case in the same class and decide meta before remote before IPFS; tracker-status string table covers every constant and the composite filters equal the OR of their members; GlobalPinInfo is keyed by peer. Also: StatusAll overlays the complete list of tracked operations onto the local listing unconditionally (as Status does per CID); a full queue leaves an error entry, never a stale queued one (R05.2). Also: Status decides meta before remote as the listing does; the per-CID IPFS query depends on the recorded pin's mode (R06.9). Also (R05.7): a listing wider than the recursive pins is compared with each pin's mode.",
 		NotDecided: "truth with respect to the daemon's actual pin set; quiescence; cluster-wide aggregation over runtime peer sets.",
 	},
 	"C07": {
@@ -40,24 +40,24 @@ var propInfo = map[string]PropInfo{
 		Exhaustive: "the RPC policy table and the RPC method sets of the five services (finite tables enumerated completely)",
 	},
 	"C08": {
-		Decides:    "Decides type- and table-level necessary conditions: no record type crossing a json/msgpack boundary contains a non-empty interface without custom (un)marshalers; codec/json keys are unique per struct after embedding; protobuf writer and reader touch the same fields and every api.Pin field is restored; query-string writer keys are a subset of reader keys; enum string tables are mutually inverse on the declared constants; decoder functions do not panic, use unchecked type assertions or drop callee errors. Also: slices sized beforehand and filled by index in a decoder get their element on every path that continues the loop (no nil hole). Also: decode targets inside loops are per iteration, repo-wide (R08.7); indexed fills of nil-like elements are complete repo-wide.",
+		Decides:    "Decides type- and table-level necessary conditions: no record type crossing a json/msgpack boundary contains a non-empty interface without custom (un)marshalers; codec/json keys are unique per struct after embedding; protobuf writer and reader touch the same fields and every api.Pin field is restored; query-string writer keys are a subset of reader keys; enum string tables are mutually inverse on the declared constants; decoder functions do not panic, use unchecked type assertions or drop callee errors. Also: slices sized beforehand and filled by index in a decoder get their element on every path that continues the loop (no nil hole). Also: decode targets inside loops are per iteration, repo-wide (R08.7); indexed fills of nil-like elements are complete repo-wide. Also: the pin-type conversion terminates for the zero type (evaluated).",
 		NotDecided: "value equality after decode(encode(x)), sub-second expiry, behaviour of the codec/protobuf/multiaddr/cid libraries on arbitrary bytes.",
 	},
 	"C09": {
-		Decides:    "Decides: LatestValid appends at most one metric per peer and only when it is valid and unexpired; LatestMetrics returns unfiltered metrics only when no peerset is known; the failure checker reports failure only when there is no metric or the latest expired; after the alert threshold the peer's metrics are forgotten and no alert is sent; ping TTL is a multiple >1 of the ping interval and informer metrics are re-published at a fraction <1 of their TTL. Also: Discard is evaluated on all four (Valid, Expired) combinations; one effective timer re-arm per publishing round, and TTL/k_ok + TTL/k_err < TTL so that one failed publish is retried before expiry. Also: one alert decision per (metric name, peer) and round (R09.7); informer siblings agree on Valid and TTL (R09.8).",
+		Decides:    "Decides: LatestValid appends at most one metric per peer and only when it is valid and unexpired; LatestMetrics returns unfiltered metrics only when no peerset is known; the failure checker reports failure only when there is no metric or the latest expired; after the alert threshold the peer's metrics are forgotten and no alert is sent; ping TTL is a multiple >1 of the ping interval and informer metrics are re-published at a fraction <1 of their TTL. Also: Discard is evaluated on all four (Valid, Expired) combinations; one effective timer re-arm per publishing round, and TTL/k_ok + TTL/k_err < TTL so that one failed publish is retried before expiry. Also: one alert decision per (metric name, peer) and round (R09.7); informer siblings agree on Valid and TTL (R09.8). Also (R09.9): a peer's whole alert record is dropped only when it holds no metric name any more; Store.Add appends on every path (no early return in front of it).",
 		NotDecided: "arrival histories, window wrap-around, 'alerts once' across check rounds.",
 	},
 	"C10": {
-		Decides:    "Decides: every repin is behind the re-pinning-enabled test (and, for alerts, behind non-follower, ping-metric, was-allocated and closest-peer tests); repin passes the failed peer as exclusion and the listed pin itself with allocations cleared; the repin paths cannot reach LogUnpin; PeerRemove vacates before removing; the expiry sweep unpins only expired pins for which this peer is closest and not in follower mode. Also: neither a return nor a break after one re-pin can end a re-pin sweep.",
+		Decides:    "Decides: every repin is behind the re-pinning-enabled test (and, for alerts, behind non-follower, ping-metric, was-allocated and closest-peer tests); repin passes the failed peer as exclusion and the listed pin itself with allocations cleared; the repin paths cannot reach LogUnpin; PeerRemove vacates before removing; the expiry sweep unpins only expired pins for which this peer is closest and not in follower mode. Also: neither a return nor a break after one re-pin can end a re-pin sweep. Also (R03.6): the allocator is consulted exactly when fewer healthy holders than the minimum remain (needed > 0).",
 		NotDecided: "that exactly one peer is closest (hash arithmetic, peerset agreement), re-allocation counts (C03).",
 	},
 	"C11": {
-		Decides:    "Decides: on every path of every REST handler exactly one response is written and no cluster operation follows an error response; parse helpers return the zero value iff they responded; the parsed pin is not modified after option parsing; the server's handler chain passes through basic auth before CORS and the router, for both listeners; the auth closure serves only with matching credentials and returns after 401; each client-library call matches exactly the server route of the same name (first match in registration order) with query keys the handler reads; GET routes reach no mutating RPC. Also: the client decodes each response into the type every answer of the handler has (R11.5 body); the stream-error trailer is announced, set on failure, read after the body and turned into an error (R11.7); RPC argument/reply types match the endpoint (R07.8).",
+		Decides:    "Decides: on every path of every REST handler exactly one response is written and no cluster operation follows an error response; parse helpers return the zero value iff they responded; the parsed pin is not modified after option parsing; the server's handler chain passes through basic auth before CORS and the router, for both listeners; the auth closure serves only with matching credentials and returns after 401; each client-library call matches exactly the server route of the same name (first match in registration order) with query keys the handler reads; GET routes reach no mutating RPC. Also: the client decodes each response into the type every answer of the handler has (R11.5 body); the stream-error trailer is announced, set on failure, read after the body and turned into an error (R11.7); RPC argument/reply types match the endpoint (R07.8). Also: every field of the REST configuration survives the save/load round trip the daemon performs at start (R15.1); asserted error types are produced in that form (R16.7).",
 		NotDecided: "the precise 4xx code, mux's matching of arbitrary bytes, TLS, timing-safe comparison.",
 		Exhaustive: "the REST route table and the client library's request sites (finite tables)",
 	},
 	"C12": {
-		Decides:    "Decides: hijack handlers write at most one response head and perform no cluster operation after an error response; requests built by the proxy towards the daemon are OPTIONS or the header-extraction path only and hijack handlers never reach the reverse proxy; the hijacked route set, methods and prefix are as specified with the catch-all registered last; mutating routes reach the replacing cluster operation and read-only routes reach no mutating RPC; slash handlers delegate with the path argument. Also: RPC argument/reply types match the endpoint at every call site of the proxy (R07.8).",
+		Decides:    "Decides: hijack handlers write at most one response head and perform no cluster operation after an error response; requests built by the proxy towards the daemon are OPTIONS or the header-extraction path only and hijack handlers never reach the reverse proxy; the hijacked route set, methods and prefix are as specified with the catch-all registered last; mutating routes reach the replacing cluster operation and read-only routes reach no mutating RPC; slash handlers delegate with the path argument. Also: RPC argument/reply types match the endpoint at every call site of the proxy (R07.8). Also (R12.5): each hijack handler reads the IPFS API's own option names (reviewed table).",
 		NotDecided: "byte-identical relay (httputil.ReverseProxy), semantics of add options.",
 	},
 	"C13": {
@@ -65,24 +65,24 @@ var propInfo = map[string]PropInfo{
 		NotDecided: "DAG closure, byte identity, root equality with the IPFS importer, shard size arithmetic, partial block-put failures.",
 	},
 	"C14": {
-		Decides:    "Decides: import cleans the state before importing in both consensus back ends and snapshot restore replaces the namespace; export and import use the same JSON type; snapshot save and offline read use the same codec and namespace and cancel/close the sink correctly; an unparsable peerstore line is never used; peerstore save keeps slice order and sorts by priority. Also: the backup rotation lists a contiguous run, vacates the oldest slot recursively, moves the live folder last (R17.6).",
+		Decides:    "Decides: import cleans the state before importing in both consensus back ends and snapshot restore replaces the namespace; export and import use the same JSON type; snapshot save and offline read use the same codec and namespace and cancel/close the sink correctly; an unparsable peerstore line is never used; peerstore save keeps slice order and sorts by priority. Also: the backup rotation lists a contiguous run, vacates the oldest slot recursively, moves the live folder last (R17.6). Also (R14.7): the peerstore import continues past an address that cannot be imported; raft data is removed outright only when it was read without error and holds no snapshot.",
 		NotDecided: "backup rotation arithmetic, file-system effects, snapshot store behaviour.",
 	},
 	"C15": {
-		Decides:    "Decides: every field of every component's JSON struct is both saved and loaded; every loader returns through Validate; the section dispatcher covers all section types; JSON fields derived from secrets are tagged hidden and every ToDisplayJSON goes through DisplayJSON, which replaces exactly the hidden fields. Also: config.SetIfNotDefault skips exactly the zero value; no JSON setting is read only under a condition on a different setting; pointer-typed settings are assigned directly under a nil test. Also: settings are not crossed between save and load (R15.9); list settings are reset before appending (R15.10); environment overrides start from the current configuration (R15.11); no loader discards a parser's outcome (R15.12).",
+		Decides:    "Decides: every field of every component's JSON struct is both saved and loaded; every loader returns through Validate; the section dispatcher covers all section types; JSON fields derived from secrets are tagged hidden and every ToDisplayJSON goes through DisplayJSON, which replaces exactly the hidden fields. Also: config.SetIfNotDefault skips exactly the zero value; no JSON setting is read only under a condition on a different setting; pointer-typed settings are assigned directly under a nil test. Also: settings are not crossed between save and load (R15.9); list settings are reset before appending (R15.10); environment overrides start from the current configuration (R15.11); no loader discards a parser's outcome (R15.12). Also (R15.13): every mergo.Merge on the load side passes WithOverride.",
 		NotDecided: "that defaults pass Validate, value-level round trip of durations/multiaddresses, envconfig parsing.",
 		Exhaustive: "the ComponentConfig implementations and their JSON struct fields (finite tables)",
 	},
 	"C16": {
-		Decides:    "Decides: Pin returns nil only after an is-pinned answer, or as the result of pin-update or of the progress loop; the progress loop returns nil only on EOF with a live context after checkResponse; pin-update is attempted only when the source is pinned recursively and its request carries unpin=false; Unpin tolerates only the not-pinned errors and refuses early when unpinning is disabled; non-200 responses and transport errors always become errors. Also: request contexts derive from the caller's context (R16.6); pin_timeout/unpin_timeout are not crossed when saved or loaded (R15.9).",
+		Decides:    "Decides: Pin returns nil only after an is-pinned answer, or as the result of pin-update or of the progress loop; the progress loop returns nil only on EOF with a live context after checkResponse; pin-update is attempted only when the source is pinned recursively and its request carries unpin=false; Unpin tolerates only the not-pinned errors and refuses early when unpinning is disabled; non-200 responses and transport errors always become errors. Also: request contexts derive from the caller's context (R16.6); pin_timeout/unpin_timeout are not crossed when saved or loaded (R15.9). Also (R16.7): the connector's error type is asserted in the form in which it is wrapped (value vs pointer).",
 		NotDecided: "the daemon's behaviour, stalls, partial progress streams.",
 	},
 	"C17": {
-		Decides:    "Decides: AddVoter only for absent peers, RemoveServer only for present peers and never the last one, and these are the only membership calls; ready is signalled only after WaitForSync (leader, voter, updates in order); AddPeer/RmPeer return nil only when committed or redirected; a removed peer sets removed before shutting down and cleans consensus data only after consensus shutdown succeeded. Also: the backup rotation vacates the oldest slot recursively before renaming, the live folder is moved as the last step, every exit of CleanupRaft is dominated by removal or backup, and no flat os.Remove is used in consensus/raft.",
+		Decides:    "Decides: AddVoter only for absent peers, RemoveServer only for present peers and never the last one, and these are the only membership calls; ready is signalled only after WaitForSync (leader, voter, updates in order); AddPeer/RmPeer return nil only when committed or redirected; a removed peer sets removed before shutting down and cleans consensus data only after consensus shutdown succeeded. Also: the backup rotation vacates the oldest slot recursively before renaming, the live folder is moved as the last step, every exit of CleanupRaft is dominated by removal or backup, and no flat os.Remove is used in consensus/raft. Also (R17.1): after AddVoter/RemoveServer the wrappers return that change's own error; isVoter requires the server's own entry with voter suffrage.",
 		NotDecided: "agreement of all members (Raft), staging to voter promotion, joiner catch-up.",
 	},
 	"C18": {
-		Decides:    "Decides: every access to a field in the confirmed guarded-by table happens with its mutex held; fields written by a component's Shutdown and read elsewhere are lock-guarded; no goroutine counted by a WaitGroup can reach Wait on it or need a mutex held across that Wait; every Lock/RLock is released on all paths; rpcReady channels are closed once under the shutdown lock.",
+		Decides:    "Decides: every access to a field in the confirmed guarded-by table happens with its mutex held; fields written by a component's Shutdown and read elsewhere are lock-guarded; no goroutine counted by a WaitGroup can reach Wait on it or need a mutex held across that Wait; every Lock/RLock is released on all paths; rpcReady channels are closed once under the shutdown lock. Also: a write through an inner map taken out of a guarded map counts as a write to the guarded field.",
 		NotDecided: "races on memory outside the guard table, dependency internals, panics from values; the race detector is a runtime tool and is not used.",
 	},
 }
